@@ -147,8 +147,11 @@ func VerifC16_ResetObservers2() { vResetObservers(2) }
 // registered fires exactly once, and the manager invariant holds afterwards.
 func VerifC08_UnregisterInCallback() {
 	w := NewWorld(1)
+	idA := ComponentID[vPos](w)
+	_ = ComponentID[vVel](w)
 	var obs [3]*Observer
 	var fired [3]int
+	var match [3]bool
 	actor := vPick("actor", 3)   // the observer whose callback unregisters ...
 	victim := vPick("victim", 3) // ... this observer
 	for i := 0; i < 3; i++ {
@@ -159,25 +162,46 @@ func VerifC08_UnregisterInCallback() {
 				obs[victim].Unregister(w)
 			}
 		})
+		// each observer's own condition holds for the created entity ({A}) or not
+		switch vPick("condition", 4) {
+		case 0:
+			match[i] = true
+		case 1:
+			obs[i].With(C[vPos]())
+			match[i] = true
+		case 2:
+			obs[i].With(C[vVel]())
+		case 3:
+			obs[i].Without(C[vPos]())
+		}
 		obs[i].Register(w)
 	}
-	vcheck("dispatch-no-panic", !vpanics(func() { w.NewEntity() }))
+	if !match[actor] {
+		return // the actor never runs: nothing is unregistered from inside a callback
+	}
+	u := w.Unsafe()
+	vcheck("dispatch-no-panic", !vpanics(func() { u.NewEntity(idA) }))
 	for i := 0; i < 3; i++ {
+		want := 0
+		if match[i] {
+			want = 1
+		}
 		if i != victim {
-			vcheck("remaining-observer-fires-exactly-once", fired[i] == 1)
+			vcheck("remaining-observer-fires-iff-its-condition-holds", fired[i] == want)
 		} else {
-			vcheck("unregistered-observer-fires-at-most-once", fired[i] <= 1)
+			vcheck("unregistered-observer-never-fires-without-its-condition", fired[i] <= want)
 		}
 	}
 	vcheck("victim-unregistered", obs[victim].id == maxObserverID)
-	// next event: exactly the two remaining observers fire
-	w.NewEntity()
+	// next event: exactly the remaining matching observers fire
+	before := fired
+	u.NewEntity(idA)
 	for i := 0; i < 3; i++ {
-		if i != victim {
-			vcheck("second-event-remaining-fire", fired[i] == 2)
-		} else {
-			vcheck("second-event-victim-silent", fired[i] <= 1)
+		want := 0
+		if match[i] && i != victim {
+			want = 1
 		}
+		vcheck("second-event", fired[i]-before[i] == want)
 	}
 	vreach("end")
 }
